@@ -38,6 +38,8 @@ PA == {"*", "/*", "a", "a/", "/a", "a/*", "a/**", "*.c", "b.c", "**/b.c", "[!a]*
 PB == {"!a", "!a/", "!/a", "!a/a", "!a/b.c", "!b.c", "!*.c", "!*", "!*/", "!**/b.c", "!a/**/b.c", "!.h",
        "!\\*", "!-x", "!d.", "!A", "!a/A", "!a/b.c/", "!/b.c", "!a/**", "!?", "![ab]", "!A/", "!**/a", "!",
        "*/", "b.c/", "!/b*.c", "!a/b*.c", "!**.c", "**/a/A", "**/a/a", "!**/a/a"}
+PDup == {"!*.c", "!b.c", "!a/", "!a", "!*", "*.c", "!/a/b.c/"}
+PDupFirst == {"*.c", "b.c", "a/", "a", "!b.c", "/a/b.c/", "*"}
 PNegRoot == {"!b.c", "!a/b.c", "!A/"}
 PS == {"!a", "!/a", "!b.c", "!*.c", "!*", "!b.c/", "!A", "!**/b.c", "!.h", "!b.c/a", "!-x",
        "a", "/b.c", "*", "b.c/", "-x", "*.c"}
@@ -56,6 +58,8 @@ MCScenariosOf(sd) ==
     [] sd.fam = "single_sub" -> {Mk(sd.t, sd.ci, <<>>, <<sd.l1>>)}      \* (T3 differs from T2 only in `sub`)
     [] sd.fam = "pairs"  -> UNION {{Mk(sd.t, sd.ci, <<sd.l1, l2>>, <<>>), Mk(sd.t, sd.ci, <<l2, sd.l1>>, <<>>)} : l2 \in PB}
     [] sd.fam = "nest"   -> {Mk(sd.t, sd.ci, <<sd.l1>>, <<s>>) : s \in PS}
+    \* the same line twice with a contradicting one in between: the last occurrence decides
+    [] sd.fam = "dup" -> {Mk(sd.t, sd.ci, <<sd.l1, l2, sd.l1>>, <<>>) : l2 \in PDup} \cup {Mk(sd.t, sd.ci, <<>>, <<sd.l1, l2, sd.l1>>) : l2 \in PDup}
     \* three lines (thorough)
     [] sd.fam = "triples" -> UNION {{Mk(sd.t, sd.ci, <<sd.l1, sd.l2, l3>>, <<>>), Mk(sd.t, sd.ci, <<sd.l1, l3, sd.l2>>, <<>>),
                                      Mk(sd.t, sd.ci, <<l3, sd.l2, sd.l1>>, <<>>)} : l3 \in PC}
@@ -71,12 +75,14 @@ QuickSeeds ==
   \cup {Seed(t, FALSE, "pairs", l, "") : t \in {T1, T2}, l \in PA}
   \cup {Seed(t, FALSE, "nest", l, "") : t \in Trees \cup {T4}, l \in PA \cup PNegRoot}
   \cup {Seed(T1, TRUE, "pairs", l, "") : l \in {"a", "A", "a/*"}}
+  \cup {Seed(T1, FALSE, "dup", l, "") : l \in PDupFirst}
 
 ThoroughSeeds ==
   {Seed(t, ci, "single", l, "") : t \in {T1, T2}, ci \in BOOLEAN, l \in SingleLines}
   \cup {Seed(T3, ci, "single_sub", l, "") : ci \in BOOLEAN, l \in SingleLines}
   \cup {Seed(t, ci, "pairs", l, "") : t \in {T1, T2}, ci \in BOOLEAN, l \in PA}
   \cup {Seed(t, ci, "nest", l, "") : t \in Trees \cup {T4}, ci \in BOOLEAN, l \in PA \cup PNegRoot}
+  \cup {Seed(t, ci, "dup", l, "") : t \in {T1, T2}, ci \in BOOLEAN, l \in PDupFirst}
   \cup {Seed(t, FALSE, "triples", l1, l2) : t \in {T1, T2}, l1 \in PA, l2 \in PB}
   \cup {Seed(t, FALSE, "nest21", l1, l2) : t \in Trees \cup {T4}, l1 \in PA, l2 \in PB}
   \cup {Seed(T1, FALSE, "nest21r", l1, l2) : l1 \in PA, l2 \in PB}
